@@ -115,7 +115,7 @@ func RunWedge(d Desc) mon.Result {
 				return *v
 			}
 		}
-		opo := r.opOptions(&d, compPatterns(&d))
+		opo := r.opOptions(&d, callerPatterns(&d))
 		evs, _, _ := r.events(&d)
 		callA = func() error { _, err := r.interactive(&d, evs, opo); return err }
 		hid := "visible"
